@@ -26,8 +26,8 @@ LABEL = ('full on the model (non-interference for all states, all event lists, a
          '(shared connection window, HPACK state) is exercised by the runs only')
 TRUSTED = ['modelled, not verified: hyper-h2 (which events it emits), asyncio task/Event semantics below the wrapper '
            'error slot; the recorder harness/c11_util.py reads grpclib attributes from outside '
-           '(processor.streams, Stream.headers/trailers/buffer._unacked/events, wrapper._error, '
-           'Handler._tasks)']
+           '(processor.streams, Stream.headers/trailers/events; a Buffer\'s queue and end flag, a Wrapper\'s '
+           'error and the Handler\'s task table are located by role, and masked on both sides when they cannot be)']
 ASSUMPTIONS = ['payloads stay far below the 65535-byte connection window, so calls do not compete for '
                'flow-control credit (that coupling is HTTP/2 semantics, see C07/C08)',
                'no bytes are delivered to data_received after the connection was closed (asyncio '
@@ -1206,8 +1206,294 @@ def run_shared(scn, only=None):
     return out
 
 
+# ---- senders competing for the peer's connection window (client end) -----------------------------------------
+
+def gen_upload(rng):
+    """one call uploads most of the peer's 65535-byte connection window to a server that does not read it and
+    is then struck; bystanders with their own requests must get the credit the struck call gives back (a
+    connection-level WINDOW_UPDATE only) and complete.  Optionally everything starts on a paused transport."""
+    nb = rng.choice([1, 1, 2, 3])
+    calls = []
+    hog = gen_call_common(rng, 0, ['task-cancel', 'deadline', 'rst'], 1.0)
+    hog['card'] = rng.choice(['UU', 'SU', 'SS', 'US'])
+    hog['path'] = PATHS[hog['card']]
+    hog['req'] = [(b'c0-q0-' + bytes([rng.randint(0, 255)]) * rng.choice([48000, 56000, 62000, 70000])).hex()]
+    hog['status'] = 0
+    if hog['strike']['kind'] == 'deadline':
+        hog['timeout'] = 2.0
+    elif hog['strike']['kind'] == 'rst':
+        hog['strike']['code'] = rng.choice(RST_CODES)
+    calls.append(hog)
+    for i in range(1, nb + 1):
+        c = gen_call_common(rng, i, [], 0.0)
+        c['status'] = 0
+        n = 1 if c['card'][0] == 'U' else rng.choice([1, 2])
+        c['req'] = [(('c%d-q%d-' % (i, j)).encode() + bytes([rng.randint(0, 255)]) * rng.choice([3000, 9000, 14000, 20000])).hex()
+                    for j in range(n)]
+        calls.append(c)
+    order = list(range(len(calls)))
+    if rng.random() < 0.3:
+        rng.shuffle(order)
+    mode = rng.choice(['', 'start', 'mid', 'mid'])
+    if mode == 'mid':
+        # every call has opened its stream and sent a small first message when the transport pauses; the big
+        # messages are all attempted while it is paused and go out together when it resumes
+        for c in calls:
+            c['card'] = rng.choice(['SU', 'SS'])
+            c['path'] = PATHS[c['card']]
+            if c['card'] == 'SU':
+                c['resp'] = c['resp'][:1] or [payload(rng, c['tag'], 'r', 0).hex()]
+            c['req'] = [('%s-q0-hello' % c['tag']).encode().hex(), c['req'][0]]
+            c['req_delays'] = [0, 0.125]
+    return {'end': 'upload', 'calls': calls, 'start_order': order, 'paused_start': mode == 'start',
+            'paused_mid': mode == 'mid', 'settle_between': rng.random() < 0.5}
+
+
+def run_upload(scn, only=None):
+    calls = scn['calls']
+    idxs = [i for i in scn['start_order'] if only is None or i == only]
+    out = {'calls': {}, 'fresh': None, 'connects': None, 'rec': None, 'violations': 0}
+    with vloop.session() as loop:
+        ce = wire.ClientEnd(loop)
+        recs = []
+        attach_recorder(ce, recs, 'C')
+        ct = loop.create_task(ce.channel.__connect__())
+        loop.run_quiet(TICK)
+        assert ct.done()
+        peer = ce.peer
+        peer.auto_ack = False                      # the scripted server decides what it reads
+        if scn['paused_start']:
+            ce.transport.pause()
+        rr = {i: new_rec() for i in idxs}
+        tasks = {}
+        for i in idxs:
+            tasks[i] = loop.create_task(client_call(ce.channel, calls[i], rr[i]))
+            if scn['settle_between'] and not scn['paused_start']:
+                loop.run_quiet(TICK)
+        loop.run_quiet(TICK)
+        if scn['paused_start']:
+            ce.transport.resume()
+            loop.run_quiet(TICK)
+        if scn.get('paused_mid'):
+            ce.transport.pause()
+            loop.advance(0.25)
+            ce.transport.resume()
+            loop.run_quiet(TICK)
+        sid, preq, ended, unread = {}, {}, set(), {}
+        struck_done = False
+
+        def serve():
+            """one round of the scripted server: read the bystanders' data (credit it), answer finished requests,
+            leave the hog's data unread"""
+            progressed = False
+            for ev in peer.take_events():
+                progressed = True
+                if isinstance(ev, E.RequestReceived):
+                    tag = dict(ev.headers).get('x-call')
+                    for i in idxs:
+                        if calls[i]['tag'] == tag:
+                            sid[i] = ev.stream_id
+                    preq[ev.stream_id] = {'md': [[k, v] for k, v in ev.headers if k.startswith('x-')], 'data': b''}
+                elif isinstance(ev, E.DataReceived) and ev.stream_id in preq:
+                    preq[ev.stream_id]['data'] += ev.data
+                    if ev.stream_id == sid.get(0) and calls[0]['strike']:
+                        unread[ev.stream_id] = unread.get(ev.stream_id, 0) + ev.flow_controlled_length
+                    elif ev.flow_controlled_length:
+                        try:
+                            peer.h2.acknowledge_received_data(ev.flow_controlled_length, ev.stream_id)
+                        except Exception:
+                            pass
+                elif isinstance(ev, E.StreamEnded):
+                    ended.add(ev.stream_id)
+                    i = next((j for j in idxs if sid.get(j) == ev.stream_id), None)
+                    if i is not None and not (i == 0 and calls[0]['strike']):
+                        for fr in client_strand(__import__('random').Random(i), dict(calls[i], strike=None)):
+                            try:
+                                if fr[0] == 'H':
+                                    peer.h2.send_headers(ev.stream_id, [tuple(x) for x in fr[1]], end_stream=fr[2])
+                                else:
+                                    peer.h2.send_data(ev.stream_id, bytes.fromhex(fr[1]), end_stream=fr[2])
+                            except Exception:
+                                out['skipped'] = out.get('skipped', 0) + 1
+            peer.flush()
+            return progressed
+
+        for _ in range(50):
+            loop.run_quiet(TICK)
+            if not serve():
+                break
+        # strike the hog; the server's release_stream gives the unread bytes back at connection level
+        if 0 in idxs:
+            k = calls[0]['strike']['kind']
+            if k == 'task-cancel':
+                tasks[0].cancel()
+            elif k == 'deadline':
+                loop.advance(5.0)
+            elif k == 'rst' and 0 in sid:
+                try:
+                    peer.h2.reset_stream(sid[0], error_code=calls[0]['strike']['code'])
+                except Exception:
+                    pass
+                peer.flush()
+            loop.run_quiet(TICK)
+            for ev in list(peer.events):
+                if isinstance(ev, E.DataReceived) and ev.stream_id == sid.get(0):
+                    pass
+            serve()
+            for s_, n in unread.items():
+                try:
+                    peer.h2.acknowledge_received_data(n, s_)
+                except Exception:
+                    pass
+            peer.flush()
+        for _ in range(50):
+            loop.run_quiet(TICK)
+            if not serve():
+                break
+        loop.advance(30)
+        serve()
+        loop.run_quiet(TICK)
+        for i in idxs:
+            r = rr[i]
+            if not r['done']:
+                r['exc'] = 'PENDING'
+            out['calls'][i] = {'exc': r['exc'], 'im': r['im'], 'msgs': r['msgs'], 'tm': r['tm'],
+                               'peer_md': preq[sid[i]]['md'] if i in sid else None,
+                               'peer_data': preq[sid[i]]['data'].hex() if i in sid else None}
+        peer.auto_ack = True
+        from grpclib.client import UnaryUnaryMethod
+        m = UnaryUnaryMethod(ce.channel, '/v.S/Fresh', bytes, bytes)
+        ft = loop.create_task(m(b'fresh', metadata=[('x-call', 'fresh')]))
+        loop.run_quiet(TICK)
+        fs = None
+        for ev in peer.take_events():
+            if isinstance(ev, E.RequestReceived) and dict(ev.headers).get('x-call') == 'fresh':
+                fs = ev.stream_id
+        if fs is not None:
+            peer.headers(fs, P.RESP_HEADERS, flush=False)
+            peer.data(fs, P.grpc_frame(b'fresh-reply'), flush=False)
+            peer.headers(fs, [('grpc-status', '0')], end_stream=True)
+        loop.run_quiet(TICK)
+        loop.advance(5)
+        o = vloop.outcome(ft)
+        out['fresh'] = 'ok' if o == ('ok', b'fresh-reply') else (exc_name(o[1]) if o[0] == 'exc' else o[0])
+        out['connects'] = ce.connects
+        out['violations'] = sum(len(c[2].violations) for c in ce.conns)
+        out['rec'] = recs[0] if recs else None
+    return out
+
+
+# ---- padded bursts nobody reads, on the server end ----------------------------------------------------------------
+
+def gen_sbulk(rng):
+    """several calls upload a burst of small messages in PADDED DATA frames within one read; their handler fails
+    after the first message, so the rest is never read and release_stream must give all of it back -- a victim
+    call then needs the connection window for a 20 KB request"""
+    nf = rng.choice([4, 8, 10, 12, 14])
+    calls = []
+    for i in range(nf):
+        c = gen_call_common(rng, i, ['handler-exc'], 1.0)
+        c['card'] = rng.choice(['SU', 'SS'])
+        c['path'] = PATHS[c['card']]
+        c['req'] = [('c%d-q%d-' % (i, j)).encode().hex() for j in range(rng.choice([20, 30, 30]))]
+        c['raise'] = rng.choice(['ValueError', 'GRPCError:3'])
+        c['raise_after'] = 1
+        c['pad'] = rng.choice([255, 255, 255, 255, 100, 0])
+        c['timeout_hdr'] = None
+        calls.append(c)
+    v = gen_call_common(rng, nf, [], 0.0)
+    v['status'] = 0
+    v['req'] = [(('c%d-q0-' % nf).encode() + bytes([rng.randint(0, 255)]) * rng.choice([20000, 30000, 40000])).hex()]
+    if v['card'][0] == 'S':
+        v['req'].append(('c%d-q1-tail' % nf).encode().hex())
+    v['raise'] = None
+    v['timeout_hdr'] = None
+    calls.append(v)
+    return {'end': 'sbulk', 'calls': calls}
+
+
+def run_sbulk(scn, only=None):
+    from grpclib.config import Configuration
+    calls = scn['calls']
+    idxs = [only] if only is not None else list(range(len(calls)))
+    out = {'calls': {}, 'fresh': None, 'rec': None, 'violations': 0}
+    specs = {calls[i]['tag']: calls[i] for i in idxs}
+    logs = {}
+    with vloop.session() as loop:
+        se = wire.ServerEnd(loop, [make_service(specs, logs)],
+                            config=Configuration(http2_connection_window_size=65535, http2_stream_window_size=65535))
+        rec = Recorder(se.proto, 'S')
+        loop.run_quiet(TICK)
+        peer = se.peer
+        peer.take_events()
+        sid, events = {}, []
+
+        def req_headers(c):
+            return [(':method', 'POST'), (':scheme', 'http'), (':path', c['path']), (':authority', 'x'),
+                    ('te', 'trailers'), ('content-type', 'application/grpc')] + [tuple(x) for x in c['md']]
+        for i in idxs:
+            c = calls[i]
+            sid[i] = peer.next_stream_id()
+            peer.h2.send_headers(sid[i], req_headers(c))
+            msgs = [bytes.fromhex(m) for m in c['req']]
+            if c.get('strike'):
+                # the whole burst in one read: one padded DATA frame per message, END_STREAM on the last
+                buf = peer.h2.data_to_send()
+                for j, m in enumerate(msgs):
+                    try:
+                        peer.h2.send_data(sid[i], P.grpc_frame(m), end_stream=(j == len(msgs) - 1),
+                                          pad_length=c['pad'] or None)
+                    except Exception:
+                        out['skipped'] = out.get('skipped', 0) + 1       # no window left: a real client would wait
+                        break
+                    buf += peer.h2.data_to_send()
+                feed_cut(se.transport, buf, [])
+                loop.run_quiet(TICK)
+            else:
+                # the victim: a client that honours flow control, sending what the window allows
+                body = b''.join(P.grpc_frame(m) for m in msgs)
+                pos = 0
+                peer.flush()
+                for _ in range(200):
+                    loop.run_quiet(TICK)
+                    events += peer.take_events()
+                    if pos >= len(body):
+                        break
+                    w = min(peer.h2.local_flow_control_window(sid[i]), 16384, len(body) - pos)
+                    if w <= 0:
+                        break                                   # starved: nothing will ever come back
+                    peer.h2.send_data(sid[i], body[pos:pos + w], end_stream=(pos + w == len(body)))
+                    pos += w
+                    peer.flush()
+                out['victim_sent'] = pos == len(body)
+            events += peer.take_events()
+        loop.run_quiet(TICK)
+        loop.advance(30)
+        events += peer.take_events()
+        for i in idxs:
+            log = logs.get(calls[i]['tag']) or {'md': None, 'msgs': [], 'exc': None, 'runs': 0}
+            out['calls'][i] = {'handler': log, 'wire': collect_wire(events, sid.get(i))}
+        fs = peer.next_stream_id()
+        try:
+            peer.h2.send_headers(fs, req_headers({'path': '/v.S/Fresh', 'md': [['x-call', 'fresh']]}))
+            peer.h2.send_data(fs, P.grpc_frame(b'fresh'), end_stream=True)
+        except Exception:
+            pass
+        peer.flush()
+        loop.run_quiet(TICK)
+        loop.advance(5)
+        w = collect_wire(peer.take_events(), fs)
+        ok = (w['data'] == P.grpc_frame(b'fresh-reply').hex() and w['trl'] is not None and
+              dict(map(tuple, w['trl'])).get('grpc-status') == '0' and w['ended'])
+        out['fresh'] = 'ok' if ok else json.dumps(w)
+        out['violations'] = len(peer.violations)
+        out['rec'] = rec
+        out['leftover'] = sorted(getattr(se.proto.processor, 'streams', {}))
+    return out
+
+
 RUNNERS = {'client': run_client, 'server': run_server, 'link': run_link, 'slots': run_slots,
-           'shared': run_shared}
+           'shared': run_shared, 'upload': run_upload, 'sbulk': run_sbulk}
 
 
 # ---- expectations: "each receives exactly its own metadata, messages and status" ---------------------
@@ -1355,7 +1641,7 @@ def check_scenario(ctx, res, scn, pending):
         solo = run_(scn, only=i)
         a, b = public(mux['calls'][i]), public(solo['calls'][i])
         struck = bool(c['strike'])
-        if a != b and not (struck and end == 'slots'):
+        if a != b and not (struck and end in ('slots', 'upload', 'sbulk')):
             # (slots: a struck call may be struck while it still waits for its slot, which it never does
             #  alone; the property speaks about the calls nobody struck)
             fail('call %d (%s, strike=%s) differs from the same call executed alone' %
@@ -1366,13 +1652,13 @@ def check_scenario(ctx, res, scn, pending):
         if not struck:
             got = mux['calls'][i]
             bad = []
-            if end in ('client', 'link', 'slots', 'shared'):
+            if end in ('client', 'link', 'slots', 'shared', 'upload'):
                 bad += expect_client_side(c, got)
-            if end in ('client', 'slots'):
+            if end in ('client', 'slots', 'upload'):
                 want = b''.join(P.grpc_frame(bytes.fromhex(m)) for m in c['req']).hex()
                 if got['peer_data'] != want or got['peer_md'] != c['md']:
                     bad.append('request as seen by the peer')
-            if end in ('server', 'link', 'shared'):
+            if end in ('server', 'link', 'shared', 'sbulk'):
                 bad += expect_server_side(c, got)
             if bad:
                 fail('call %d (%s, not struck) did not get exactly its own data: %s' % (i, c['card'], ', '.join(bad)),
@@ -1403,7 +1689,7 @@ def check_scenario(ctx, res, scn, pending):
     # ---- correspondence: the recorded inputs through the model
     if mux.get('stuck'):
         res.count('slots:server could not go on (calls %s blocked)' % (len(mux['stuck']),))
-    sides = {'client': ['C'], 'server': ['S'], 'link': ['C', 'S'], 'slots': ['C'], 'shared': ['C', 'S']}[end]
+    sides = {'client': ['C'], 'server': ['S'], 'link': ['C', 'S'], 'slots': ['C'], 'shared': ['C', 'S'], 'upload': ['C'], 'sbulk': ['S']}[end]
     for r, side in zip(recs, sides):
         if r.blind:
             res.count('unobservable:connection (no correspondence): %s' % getattr(r, 'blind_reason', '?')[:60])
@@ -1434,7 +1720,7 @@ def settle(ctx, res, pending):
 
 
 GENS = {'client': gen_client, 'server': gen_server, 'link': gen_link, 'spurious': gen_spurious,
-        'slots': gen_slots, 'shared': gen_shared}
+        'slots': gen_slots, 'shared': gen_shared, 'upload': gen_upload, 'sbulk': gen_sbulk}
 
 
 def run(ctx):
@@ -1457,7 +1743,10 @@ def _run(ctx):
                 'grpc-timeout; link: real client <-> real server through a PRNG byte re-cutter with PRNG '
                 'virtual delays. slots: 3..6 calls against a peer allowing 1..3 concurrent streams with 65535-byte '
                 'windows, so that calls wait for a slot / for connection credit that finished or struck calls must '
-                'give back; shared: 2..5 concurrent calls created from ONE metadata object (dict / list of pairs / '
+                'give back; upload: one call fills the peer\'s 65535-byte connection window with a request nobody reads '
+                'and is struck, bystanders need the connection-level credit it gives back (optionally all started on a '
+                'paused transport); sbulk: 3..8 server calls receive a burst of padded DATA in one read and fail after '
+                'the first message, then a victim must upload 12..30 KB through the same connection window; shared: 2..5 concurrent calls created from ONE metadata object (dict / list of pairs / '
                 'MultiDict / CIMultiDict), with SendRequest / SendInitialMetadata / SendTrailingMetadata listeners that '
                 'write a per-call id into event.metadata and await before returning (bursts of unread, partly padded DATA in the same read as the RST_STREAM / before the '
                 'cancel). Every call is re-run alone on a fresh connection. spurious: a sender blocked on an '
@@ -1470,7 +1759,8 @@ def _run(ctx):
         check_scenario(ctx, res, scn, pending)
         res.count('corpus')
     n = ctx.n(400, 6000)
-    for end, share in (('client', 1.0), ('server', 1.0), ('link', 0.5), ('slots', 0.5), ('shared', 0.25)):
+    for end, share in (('client', 1.0), ('server', 1.0), ('link', 0.5), ('slots', 0.5), ('shared', 0.25), ('upload', 0.3),
+                       ('sbulk', 0.15)):
         for _ in range(int(n * share)):
             check_scenario(ctx, res, GENS[end](rng), pending)
     for _ in range(n // 2):
